@@ -964,7 +964,8 @@ class ReportProp(SimpleProp):
     prop = "C17"
     needs_extract = True
     lean_modules = ["CvssVerif.Props.C17"]
-    theorems = ["CvssVerif.Props.C17." + t for t in ("report_field", "wiring", "levels", "version_field", "paths_unique", "score_rendering")]
+    theorems = ["CvssVerif.Props.C17." + t for t in ("report_field", "wiring", "levels", "version_field", "paths_unique", "score_rendering",
+                                                     "schema_on_own_scores")]
     rule = ("all-values cover (each value of each of the 22 metrics, neighbouring metrics pairwise different) plus seeded random vectors and "
             "vectors scoring 0.0 and 10.0 at every level, x 3 report levels x language tags; every exported string field of the report and "
             "of its embedded reports compared by path; distinct by op")
